@@ -1,8 +1,10 @@
 #!/usr/bin/env python3
 """Markdown table of the seeded changes (seeded/*/meta.json) for DESIGN.md §11."""
+import os as _os
+ROOT = _os.path.dirname(_os.path.dirname(_os.path.abspath(__file__)))
 import json, glob, os
 rows = []
-for d in sorted(glob.glob("/verif/seeded/*")):
+for d in sorted(glob.glob(ROOT + "/seeded/*")):
     try:
         m = json.load(open(d + "/meta.json"))
     except Exception:
@@ -21,11 +23,11 @@ out.append("%d seeded changes, %d reported by the check of the property they tar
 text = "\n".join(out)
 if "--update" in sys.argv:
     B, E = "<!-- SEEDED_TABLE_BEGIN -->", "<!-- SEEDED_TABLE_END -->"
-    d = open("/verif/DESIGN.md").read()
+    d = open(ROOT + "/DESIGN.md").read()
     if "SEEDED_TABLE_PLACEHOLDER" in d:
         d = d.replace("SEEDED_TABLE_PLACEHOLDER", B + "\n" + E)
     a, b = d.index(B), d.index(E)
     d = d[:a] + B + "\n" + text + "\n" + d[b:]
-    open("/verif/DESIGN.md", "w").write(d)
+    open(ROOT + "/DESIGN.md", "w").write(d)
 else:
     print(text)
